@@ -237,3 +237,16 @@ func ParseIdent(key int, der []byte) (Identity, error) {
 	}
 	return Identity{Key: key, Cert: c}, nil
 }
+
+// Sibling returns a certificate on the same key and with the same name as id but another serial number.
+func Sibling(id Identity) (Identity, error) {
+	k := id.Key
+	if k < 0 {
+		return Identity{}, fmt.Errorf("no private key")
+	}
+	c, err := makeCert(k, id.Cert.Subject, new(big.Int).Add(id.Cert.SerialNumber, big.NewInt(1)))
+	if err != nil {
+		return Identity{}, err
+	}
+	return Identity{Key: k, Cert: c}, nil
+}
